@@ -20,8 +20,8 @@ macro_rules! bail {
     ($($arg:tt)*) => { return Err(Viol::new("mismatch", format!($($arg)*))) }
 }
 
-pub const MAP_OPS: [&str; 12] = ["par_iter", "par_keys", "par_values", "par_iter_mut", "par_values_mut", "(&map).into_par_iter", "(&mut map).into_par_iter", "map.into_par_iter", "par_eq", "par_extend", "from_par_iter", "par_extend(&)"];
-pub const SET_OPS: [&str; 13] = ["par_iter", "set.into_par_iter", "par_union", "par_intersection", "par_difference", "par_symmetric_difference", "par_is_subset", "par_is_superset", "par_is_disjoint", "par_eq", "par_extend", "from_par_iter", "par_extend(&)"];
+pub const MAP_OPS: [&str; 14] = ["par_iter", "par_keys", "par_values", "par_iter_mut", "par_values_mut", "(&map).into_par_iter", "(&mut map).into_par_iter", "map.into_par_iter", "par_eq", "par_extend", "from_par_iter", "par_extend(&)", "par_extend(lopsided source)", "from_par_iter(lopsided source)"];
+pub const SET_OPS: [&str; 14] = ["par_iter", "set.into_par_iter", "par_union", "par_intersection", "par_difference", "par_symmetric_difference", "par_is_subset", "par_is_superset", "par_is_disjoint", "par_eq", "par_extend", "from_par_iter", "par_extend(&)", "par_extend(lopsided source)"];
 
 fn build<W: World>(cfg: &Cfg, h: &[Op]) -> VResult<W> {
     let mut w = W::create(cfg)?;
@@ -149,7 +149,7 @@ fn map_parop<T: El + Send + Sync>(w: &mut MapWorld<T>, op: usize) -> VResult<u64
                 }
             }
         }
-        9 | 11 => {
+        9 | 11 | 12 => {
             let n = w.next_key;
             // fresh keys, keys already in the map, and keys that occur several times in the input
             // with different values (the last one must win, whatever the split schedule)
@@ -167,6 +167,11 @@ fn map_parop<T: El + Send + Sync>(w: &mut MapWorld<T>, op: usize) -> VResult<u64
             if op == 9 {
                 let v: Vec<(T, T)> = items.iter().map(|&(k, v)| (T::mk(k, true), T::mk(v, false))).collect();
                 w.m.par_extend(v);
+            } else if op == 12 {
+                // a source that splits unevenly: padding that a filter drops again sits right behind the
+                // first item, so one side of every early split keeps a single element
+                let v: Vec<(T, T)> = lopsided(&items).into_iter().map(|(k, v)| (T::mk(k, true), T::mk(v, false))).collect();
+                w.m.par_extend(v.into_par_iter().filter(|(k, _)| k.id() != PAD || T::ZST));
             } else if !par_extend_ref(&mut w.m, &items) {
                 return Ok(0);
             }
@@ -192,8 +197,13 @@ fn map_parop<T: El + Send + Sync>(w: &mut MapWorld<T>, op: usize) -> VResult<u64
                 input.push((k, (v + 2) % 3));
             }
             input.extend(want.iter().copied());
-            let v: Vec<(T, T)> = input.iter().map(|&(k, v)| (T::mk(k, true), T::mk(v, false))).collect();
-            let built: griddle::HashMap<T, T, gmc::hasher::HB> = v.into_par_iter().collect();
+            let built: griddle::HashMap<T, T, gmc::hasher::HB> = if op == 13 {
+                let v: Vec<(T, T)> = lopsided(&input).into_iter().map(|(k, v)| (T::mk(k, true), T::mk(v, false))).collect();
+                v.into_par_iter().filter(|(k, _)| k.id() != PAD || T::ZST).collect()
+            } else {
+                let v: Vec<(T, T)> = input.iter().map(|&(k, v)| (T::mk(k, true), T::mk(v, false))).collect();
+                v.into_par_iter().collect()
+            };
             if built != w.m || w.m != built {
                 bail!("from_par_iter builds a map different from the sequential collect of the same input (duplicate keys: last value wins)");
             }
@@ -205,6 +215,20 @@ fn map_parop<T: El + Send + Sync>(w: &mut MapWorld<T>, op: usize) -> VResult<u64
     }
     h.u64(w.r.len() as u64);
     Ok(h.finish64())
+}
+
+/// Key id of padding items (dropped again by a filter).
+const PAD: u32 = 0x00F0_0000;
+/// `items` with as many padding items as real ones inserted right behind the first item.
+fn lopsided(items: &[(u32, u32)]) -> Vec<(u32, u32)> {
+    let mut v = Vec::with_capacity(items.len() * 2);
+    for (i, &it) in items.iter().enumerate() {
+        v.push(it);
+        if i == 0 {
+            v.extend((0..items.len()).map(|_| (PAD, 0)));
+        }
+    }
+    v
 }
 
 fn par_extend_ref<T: El>(m: &mut griddle::HashMap<T, T, gmc::hasher::HB>, items: &[(u32, u32)]) -> bool {
@@ -285,12 +309,28 @@ fn set_parop<T: El + Send + Sync>(a: &mut SetWorld<T>, b: &mut SetWorld<T>, op: 
                 bail!("par_eq is false for a set and its clone");
             }
         }
-        10 | 12 => {
-            let items: Vec<u32> = rb.iter().copied().chain(a.next_key..a.next_key + 10).collect();
+        10 | 12 | 13 => {
+            // elements of the other set (some already present), fresh ones, and repeats: as for sequential
+            // extend, the first of several equal elements is the one that is kept
+            let mut items: Vec<u32> = rb.iter().copied().chain(a.next_key..a.next_key + 10).collect();
+            let reps: Vec<u32> = items.iter().copied().step_by(3).collect();
+            items.extend(reps);
             let mut seq = a.s.clone();
             seq.extend(items.iter().map(|&k| T::mk(k, true)));
-            if op == 10 {
-                a.s.par_extend(items.iter().map(|&k| T::mk(k, true)).collect::<Vec<T>>());
+            let mut expect_obj: BTreeMap<u32, u64> = a.r.clone();
+            if op == 10 || op == 13 {
+                let src: Vec<u32> = if op == 13 { lopsided(&items.iter().map(|&k| (k, 0)).collect::<Vec<_>>()).into_iter().map(|e| e.0).collect() } else { items.clone() };
+                let elems: Vec<T> = src.iter().map(|&k| T::mk(k, true)).collect();
+                for (e, &k) in elems.iter().zip(&src) {
+                    if k != PAD || T::ZST {
+                        expect_obj.entry(T::norm(k)).or_insert(e.obj());
+                    }
+                }
+                if op == 13 {
+                    a.s.par_extend(elems.into_par_iter().filter(|k| k.id() != PAD || T::ZST));
+                } else {
+                    a.s.par_extend(elems);
+                }
             } else if !set_par_extend_ref(&mut a.s, &items) {
                 return Ok(0);
             }
@@ -304,6 +344,9 @@ fn set_parop<T: El + Send + Sync>(a: &mut SetWorld<T>, b: &mut SetWorld<T>, op: 
                 }
             }
             let stored: BTreeMap<u32, u64> = a.s.iter().map(|x| (x.id(), x.obj())).collect();
+            if T::TRACKED && (op == 10 || op == 13) && stored != expect_obj {
+                bail!("{} keeps a different one of several equal elements than sequential extend (which keeps the first)", name);
+            }
             a.r = stored;
             a.audit(true)?;
         }
